@@ -6902,6 +6902,14 @@ func (c *linkerContext) generateIsolatedHash(chunk *chunkInfo, channel chan []by
 	hashWriteLengthPrefixed(hash, chunk.outputSourceMap.Mappings)
 	hashWriteLengthPrefixed(hash, chunk.outputSourceMap.Suffix)
 
+	// Also include the external legal comments in the hash. The legal comments
+	// file is named after the chunk (i.e. "chunk-HASH.js.LEGAL.txt") so the
+	// hash must change if only the legal comments change. Otherwise the same
+	// file name would be used for different contents.
+	if len(chunk.externalLegalComments) > 0 {
+		hashWriteLengthPrefixed(hash, chunk.externalLegalComments)
+	}
+
 	// Store the hash so far. All other chunks that import this chunk will mix
 	// this hash into their final hash to ensure that the import path changes
 	// if this chunk (or any dependencies of this chunk) is changed.
